@@ -12,6 +12,7 @@
 # See the License for the specific language governing permissions and
 # limitations under the License.
 
+import contextlib
 import warnings
 
 import torch
@@ -41,6 +42,23 @@ def convert_none_to_zeros(sequence, like_sequence):
 
 def make_seq_requires_grad(sequence):
     return [p if p.requires_grad else p.detach().requires_grad_(True) for p in sequence]
+
+
+@contextlib.contextmanager
+def enable_grad():
+    # `torch.enable_grad` alone records nothing inside `torch.inference_mode`: derivatives taken there are silently zero.
+    inference_mode = getattr(torch, 'inference_mode', None)
+    if inference_mode is None:
+        with torch.enable_grad():
+            yield
+    else:
+        with inference_mode(False), torch.enable_grad():
+            yield
+
+
+def normal_tensors(*maybe_tensors):
+    # Tensors created in inference mode cannot take part in autograd; copies of them can.
+    return [x.clone() if torch.is_tensor(x) and getattr(x, 'is_inference', bool)() else x for x in maybe_tensors]
 
 
 def is_strictly_increasing(ts):
